@@ -248,6 +248,42 @@ class ObsFcst(object):
         return pop
 
 
+@diagram("obsfcst-q", flavor="prob")
+class ObsFcstQ(object):
+    """obsfcst with quantile lines: one line per input and quantile, labelled '<input> <level>%'."""
+
+    def args(self, case, spec):
+        qs = None
+        for d in spec["inputs"]:
+            s_ = set(d.get("quantiles") or [])
+            qs = s_ if qs is None else qs & s_
+        qs = sorted(qs or [])
+        if len(qs) < 2:
+            return None
+        case["opt"]["q"] = [qs[0], qs[-1]]
+        return ["-m", "obsfcst", "-x", case["opt"]["axis"], "-q", edges_arg([qs[0], qs[-1]])]
+
+    def options(self, draw, spec):
+        return {"axis": draw(st.sampled_from(["leadtime", "time", "location", "leadtimeday"]))}
+
+    def verify(self, J, dump, ds, spec, case, names):
+        ax = data_axes(dump)[0]
+        axis = case["opt"]["axis"]
+        sl = ds.slices(axis)
+        xs = [float(b) for b, _ in sl]
+        if axis == "time":
+            xs = [datenum(x) for x in xs]
+        pop = 0
+        for i, nm in enumerate(names):
+            ys = [mean(f for o, f in pairs(ds, i, axis, k)) for k in range(len(sl))]
+            J.series(ax, nm, xs, ys, "fcst")
+            for q in case["opt"]["q"]:
+                ys = [mean(c[0] for c in ds.cases([("q", q), ("obs",)], i, axis, k)) for k in range(len(sl))]
+                J.series(ax, "%s %g%%" % (nm, q * 100), xs, ys, "quantile")
+                pop = max(pop, sum(1 for y in ys if y == y))
+        return pop
+
+
 @diagram("qq")
 class QQ(object):
     def args(self, case, spec):
